@@ -58,9 +58,9 @@ StepY(s) == IF s = 1 THEN <<R(3), R(9)>> ELSE <<R(4), R(8)>>
 FromDeg(v, u) == IF u = UAtom(LatAtom) THEN [i \in DOMAIN v |-> RSub(R(90), v[i])] ELSE IF u = UAtom(LonAtom) THEN [i \in DOMAIN v |-> RSub(v[i], R(180))] ELSE v
 ToDeg(v, u) == IF u = UAtom(LatAtom) THEN [i \in DOMAIN v |-> RSub(R(90), v[i])] ELSE IF u = UAtom(LonAtom) THEN [i \in DOMAIN v |-> RAdd(v[i], R(180))] ELSE v
 XVals(u, s) == IF IsAngle(u) THEN (IF u = UAtom(12) THEN DegX(s) ELSE IF HasOffset(u) THEN FromDeg(DegX(s), u) ELSE StepX(s))
-               ELSE CASE s = 1 -> <<R(7), <<-5, 2>> >> [] s = 2 -> <<R(-9), R(4)>> [] s = 3 -> <<R(64), R(96)>> [] s = 4 -> <<R(96), R(40)>>
+               ELSE CASE s = 1 -> <<R(7), <<-5, 2>> >> [] s = 2 -> <<R(-9), R(4)>> [] s = 3 -> <<R(64), R(96)>> [] s = 4 -> <<R(96), R(40)>> [] s = 5 -> <<R(2), R(8)>>
 YVals(u, s) == IF IsAngle(u) THEN (IF u = UAtom(12) THEN DegY(s) ELSE IF HasOffset(u) THEN FromDeg(DegY(s), u) ELSE StepY(s))
-               ELSE CASE s = 1 -> <<R(3), R(2)>> [] s = 2 -> <<R(-2), <<5, 4>> >> [] s = 3 -> <<R(2), <<3, 2>> >> [] s = 4 -> <<R(4), R(3)>>
+               ELSE CASE s = 1 -> <<R(3), R(2)>> [] s = 2 -> <<R(-2), <<5, 4>> >> [] s = 3 -> <<R(2), <<3, 2>> >> [] s = 4 -> <<R(4), R(3)>> [] s = 5 -> <<R(4), <<3, 2>> >>
 VB == 8192
 Bounded(v) == \A i \in DOMAIN v : IAbs(v[i][1]) <= VB /\ v[i][2] <= VB
 RECURSIVE Pow2(_)
@@ -172,7 +172,34 @@ Do(op, meth, forms, a, b, p, unary) ==
   /\ ra' = Append(ra, xa.reg) /\ rb' = Append(rb, xb.reg)
   /\ UNCHANGED cfgv
 
+\* a power with a general exponent (Arith "powerx"): the result register lives in exponent space (kind "l": u = exponent of
+\* every atom, sv = prime exponents of the scale, v = prime exponents of the transcription's numbers, rv = pv = prime
+\* exponents of the reference SI magnitudes); it is not an operand of later steps
+RunX(A, p) ==
+  IF ~(InClaimX(A, p) /\ DecidableX(A, p)) THEN No
+  ELSE LET r == ImplX(A, p)  ref == RefX(A, p) IN
+       [ok |-> TRUE, reg |-> [k |-> "l", u |-> r.ue, sv |-> r.sv, rg |-> A.rg, cx |-> FALSE, dt |-> "f8", v |-> r.lv, rv |-> ref.si, pv |-> ref.si,
+                              ex |-> FALSE, pf |-> "ok", dq |-> ref.dq]]
+DoX(forms, a, p) ==
+  LET xa == RunX(ra[a], p)  xb == RunX(rb[a], p) IN
+  /\ (Len(steps) = 0 \/ a = Len(ra))
+  /\ ra[a].k = "q" /\ rb[a].k = "q"
+  /\ xa.ok /\ xb.ok
+  /\ steps' = Append(steps, [op |-> "powerx", meth |-> "call", forms |-> forms, a |-> a, b |-> 0, p |-> p])
+  /\ ra' = Append(ra, xa.reg) /\ rb' = Append(rb, xb.reg)
+  /\ UNCHANGED cfgv
+\* exponents that are not ratios of small integers: decimals of 4 to 6 digits (a measured index, a truncated root of two,
+\* e, one third), fractions whose denominators are not on the x6 grid, and neighbours of the usual ones
+XExponents == {<<7071, 5000>>, <<3333, 10000>>, <<-23547, 10000>>, <<27183, 10000>>, <<333333, 1000000>>, <<1, 7>>, <<3, 16>>,
+               <<2, 3>>, <<-1, 3>>, <<5, 4>>, <<1001, 1000>>, <<99, 100>>, <<-7, 5>>}
+\* call forms: operator, ufunc, in-place, out=, out=self, and the carriers of the exponent (numpy scalar, 0-d array, array of
+\* equal exponents, dimensionless quantity) - each takes its own branch of the power rule in __array_ufunc__
+\* decimals of seven digits next to a simple fraction: Rational(str(p)).limit_denominator() turns them into 1/3, 2/3, 1/4, 1
+\* (denominator bound 10^6) while the numbers are raised to the float itself
+XFine == {<<3333333, 10000000>>, <<6666667, 10000000>>, <<2500001, 10000000>>, <<10000001, 10000000>>}
+XForms == {"op", "uf", "iop", "out", "outself", "op64", "uf0d", "ufarr", "ufq", "opq"}
 Idx == 1..Len(ra)
+PowerX == "powerx" \in OpSet /\ \E a \in Idx, p \in XExponents \cup XFine : DoX(XForms, a, p)
 Binary == \E op \in BinOps, a \in Idx, b \in Idx : Do(op, "call", BinForms(op), a, b, ROne, FALSE)
 Unary == \E op \in UnOps, a \in Idx : Do(op, "call", UnForms(op), a, 0, ROne, TRUE)
 Power == "power" \in OpSet /\ \E a \in Idx, p \in Exponents : Do("power", "call", {"uf", "op", "iop"}, a, 0, p, TRUE)
@@ -183,11 +210,12 @@ Reduce == \E k \in RedKinds, a \in Idx : k[1] \in OpSet /\ Do(k[1], k[2], k[3], 
 OuterS == \E op \in OuterOps, a \in Idx, b \in Idx : Do(op, "outer", {"uf"}, a, b, ROne, FALSE)
 DotS == "dot" \in OpSet /\ \E a \in Idx, b \in Idx : Do("dot", "call", DotForms, a, b, ROne, FALSE)
 
-Next == Len(steps) < MaxLen /\ (Binary \/ Unary \/ Power \/ Scalar \/ Reduce \/ OuterS \/ DotS)
+Next == Len(steps) < MaxLen /\ (Binary \/ Unary \/ Power \/ PowerX \/ Scalar \/ Reduce \/ OuterS \/ DotS)
 Spec == Init /\ [][Next]_vars
 
 (* ---- export ---- *)
-RegOut(r) == [k |-> r.k, u |-> r.u, sv |-> r.sv, rg |-> r.rg, cx |-> r.cx, dt |-> r.dt, v |-> r.v, rv |-> r.rv, pv |-> r.pv, ex |-> r.ex]
+RegOut(r) == IF r.k = "l" THEN [k |-> r.k, u |-> r.u, sv |-> r.sv, rg |-> r.rg, cx |-> r.cx, dt |-> r.dt, v |-> r.v, rv |-> r.rv, pv |-> r.pv, ex |-> r.ex, dq |-> r.dq]
+             ELSE [k |-> r.k, u |-> r.u, sv |-> r.sv, rg |-> r.rg, cx |-> r.cx, dt |-> r.dt, v |-> r.v, rv |-> r.rv, pv |-> r.pv, ex |-> r.ex]
 ModelFails(rs) == {[op |-> steps[i].op, verdict |-> rs[i + 2].pf] : i \in {j \in 1..Len(steps) : rs[j + 2].pf # "ok"}}
 Export ==
   Len(steps) = ExportLen =>
